@@ -89,6 +89,14 @@ def pairs(tier):
             [If(B('==', sel(), C(0)), A(V('vb'), C(10)), If(B('==', sel(), C(1)), A(V('vb'), C(11)), If(B('==', sel(), C(7)), A(V('vb'), C(17)), A(V('vb'), C(12)))))])
         add('rw/switch_nodef/' + sn, [Switch(sel(), [(2, [A(V('vb'), C(1)), Break()]), (200, [A(V('vb'), C(2)), Break()])])],
             [If(B('==', sel(), C(2)), A(V('vb'), C(1)), If(B('==', sel(), C(200)), A(V('vb'), C(2))))])
+    # switch whose last case ends in `break` (a JMP to the label that follows it) vs the if chain, followed by a statement that needs
+    # the constant one of the paths left in A / X / Y
+    for (sn, sel), (dn, dst), tail in itertools.product([('va', lambda: V('va')), ('X', lambda: V('X'))], [('vb', lambda: V('vb')), ('Y', lambda: V('Y'))], ('st', 'inc-st', 'cmp')):
+        tl = {'st': lambda: [A(V('vc'), C(12))], 'inc-st': lambda: [ExprS(Inc('++', False, V('vd'))), A(V('vc'), C(12))], 'cmp': lambda: [If(B('==', dst(), C(12)), A(V('vc'), C(1)), A(V('vc'), C(2)))]}[tail]
+        add('rw/switch-tail/%s/%s/%s' % (sn, dn, tail), [Switch(sel(), [(0, [A(dst(), C(10)), Break()]), (1, [A(dst(), C(11)), Break()]), (None, [A(dst(), C(12)), Break()])])] + tl(),
+            [If(B('==', sel(), C(0)), A(dst(), C(10)), If(B('==', sel(), C(1)), A(dst(), C(11)), A(dst(), C(12))))] + tl())
+        add('rw/switch-tail-nodef/%s/%s/%s' % (sn, dn, tail), [Switch(sel(), [(0, [A(dst(), C(10)), Break()]), (1, [A(dst(), C(12)), Break()])])] + tl(),
+            [If(B('==', sel(), C(0)), A(dst(), C(10)), If(B('==', sel(), C(1)), A(dst(), C(12))))] + tl())
     # index through a register holding k vs constant k (query restricted to states with reg == k)
     for reg, k in itertools.product(('X', 'Y'), (0, 2, 3)):
         for n, mk in (('ld', lambda i: [A(V('va'), Index('arr', i))]), ('st', lambda i: [A(Index('arr', i), V('va'))]), ('add', lambda i: [A(V('vb'), B('+', V('va'), Index('arr', i)))]),
